@@ -115,11 +115,11 @@ def a5(led, rid, ctx):
         ok = any(f.cfg.dominates(d.bb, c.bb) for d in f.calls_named("declare_new_decision_level"))
         led.check(ok, rid, "post-on-fresh-level", c.span, "declare_new_decision_level dominates the post",
                   "a decision/assumption is posted without opening a new decision level first")
-    # the assumption posted is the one peeked; failure declares infeasible-under-assumptions with it
-    R = resolver(f)
-    peeks = f.calls_named("peek_next_assumption_predicate")
-    led.check(len(peeks) == 1, rid, "peek", f.span, "", "make_next_decision no longer peeks the next assumption")
-    g = lib.method("ConstraintSatisfactionSolver", "peek_next_assumption_predicate")
+    # the assumption that is posted is assumptions[decision level]: judged on the view of make_next_decision in
+    # which the private peek helper (if there is one) is spliced in
+    from ..inline import view
+    g = view(lib, f, want=lambda h: h.file == f.file and h.kind != "Closure" and h.vis != "pub" and len(h.blocks) <= 12
+             and h.name.startswith(("peek", "next_assumption", "get_next_assumption")))
     Rg = resolver(g)
     gets = [c for c in g.calls if c.name in ("get", "index")]
     ok = False
@@ -130,6 +130,7 @@ def a5(led, rid, ctx):
             ok = True
     led.check(ok, rid, "assumption-indexed-by-level", g.span, "assumptions.get(decision_level)",
               "the next assumption is not assumptions[decision level]")
+    led.check(ok, rid, "peek", f.span, "", "make_next_decision no longer peeks the next assumption")
 
 
 def a6(led, rid, ctx):
